@@ -6,6 +6,7 @@ import (
 	"go/ast"
 	"go/format"
 	"go/parser"
+	"go/printer"
 	"go/token"
 	"os"
 	"path/filepath"
@@ -45,6 +46,7 @@ type instrumenter struct {
 	extPkgs     map[*ast.File]map[string]extPkg // per file: local import name -> other package of the module
 	sites       []*site
 	unsupported map[string]bool
+	extra       int // statements inserted that are not access sites (they need the import too)
 	fset        *token.FileSet
 	curFile     string
 	curAST      *ast.File
@@ -344,7 +346,14 @@ func (in *instrumenter) own(s ast.Stmt, a *accSet) {
 		in.unsupported["channel send"] = true
 		in.reads(x.Value, a)
 	case *ast.SelectStmt:
-		in.unsupported["select"] = true
+		// a select with a default clause never blocks: its channel operations are modelled as
+		// synchronisation points (verifvsched.ChanSync, inserted by stmts/nested); any other select
+		// could park a thread for real under the cooperative scheduler
+		if chans, ok := nonBlockingSelect(x); !ok {
+			in.unsupported["select"] = true
+		} else {
+			_ = chans
+		}
 	case *ast.LabeledStmt:
 		in.own(x.Stmt, a)
 	}
@@ -530,10 +539,77 @@ func (in *instrumenter) stmts(list []ast.Stmt) []ast.Stmt {
 				out = append(out, in.newSite(s.Pos(), a.list))
 			}
 		}
+		if sel, ok := s.(*ast.SelectStmt); ok {
+			if chans, ok := nonBlockingSelect(sel); ok {
+				for _, ch := range chans {
+					out = append(out, in.chanSync(ch))
+				}
+			}
+		}
 		in.nested(s)
 		out = append(out, s)
 	}
 	return out
+}
+
+// nonBlockingSelect reports whether sel has a default clause and all its channel operands are plain
+// identifiers or selector chains (safe to evaluate twice); it returns those operands, one per comm clause
+// (nil for the default clause).
+func nonBlockingSelect(sel *ast.SelectStmt) ([]ast.Expr, bool) {
+	hasDefault := false
+	var chans []ast.Expr
+	for _, c := range sel.Body.List {
+		cc := c.(*ast.CommClause)
+		if cc.Comm == nil {
+			hasDefault = true
+			continue
+		}
+		var ch ast.Expr
+		switch st := cc.Comm.(type) {
+		case *ast.SendStmt:
+			ch = st.Chan
+		case *ast.ExprStmt:
+			if u, ok := st.X.(*ast.UnaryExpr); ok && u.Op == token.ARROW {
+				ch = u.X
+			}
+		case *ast.AssignStmt:
+			if len(st.Rhs) == 1 {
+				if u, ok := st.Rhs[0].(*ast.UnaryExpr); ok && u.Op == token.ARROW {
+					ch = u.X
+				}
+			}
+		}
+		if !simpleOperand(ch) {
+			return nil, false
+		}
+		chans = append(chans, ch)
+	}
+	return chans, hasDefault
+}
+
+func simpleOperand(e ast.Expr) bool {
+	switch x := e.(type) {
+	case *ast.Ident:
+		return true
+	case *ast.SelectorExpr:
+		return simpleOperand(x.X)
+	}
+	return false
+}
+
+// chanSync builds the statement verifvsched.ChanSync(<ch>).
+func (in *instrumenter) chanSync(ch ast.Expr) ast.Stmt {
+	in.extra++
+	var b bytes.Buffer
+	printer.Fprint(&b, token.NewFileSet(), ch)
+	e, err := parser.ParseExpr(b.String())
+	if err != nil {
+		e = ast.NewIdent("nil")
+	}
+	return &ast.ExprStmt{X: &ast.CallExpr{
+		Fun:  &ast.SelectorExpr{X: ast.NewIdent("verifvsched"), Sel: ast.NewIdent("ChanSync")},
+		Args: []ast.Expr{e},
+	}}
 }
 
 // funcLits instruments the bodies of function literals occurring in expressions of s.
@@ -607,9 +683,17 @@ func (in *instrumenter) nested(s ast.Stmt) {
 			cc.Body = in.stmts(cc.Body)
 		}
 	case *ast.SelectStmt:
+		chans, nb := nonBlockingSelect(x)
+		k := 0
 		for _, c := range x.Body.List {
 			cc := c.(*ast.CommClause)
 			cc.Body = in.stmts(cc.Body)
+			if cc.Comm != nil {
+				if nb && k < len(chans) {
+					cc.Body = append([]ast.Stmt{in.chanSync(chans[k])}, cc.Body...)
+				}
+				k++
+			}
 		}
 	case *ast.LabeledStmt:
 		in.nested(x.Stmt)
@@ -710,6 +794,7 @@ func instrumentPackage(dense bool) (map[string]string, map[string]interface{}) {
 			name := p.files[i]
 			in.curFile, in.curAST = name, f
 			before := len(in.sites)
+			beforeExtra := in.extra
 			for _, d := range f.Decls {
 				if fd, ok := d.(*ast.FuncDecl); ok && fd.Body != nil {
 					fd.Body.List = in.stmts(fd.Body.List)
@@ -718,7 +803,8 @@ func instrumentPackage(dense bool) (map[string]string, map[string]interface{}) {
 			ast.Inspect(f, func(n ast.Node) bool {
 				switch n.(type) {
 				case *ast.ChanType:
-					in.unsupported["channel type"] = true
+					// a channel as such is fine; blocking operations on it are what the scheduler cannot
+					// model (flagged where they occur: send / receive outside a select with default)
 				}
 				if se, ok := n.(*ast.SelectorExpr); ok {
 					if id, ok := se.X.(*ast.Ident); ok && id.Name == "sync" && (se.Sel.Name == "Cond" || se.Sel.Name == "NewCond") {
@@ -727,7 +813,7 @@ func instrumentPackage(dense bool) (map[string]string, map[string]interface{}) {
 				}
 				return true
 			})
-			changed := len(in.sites) > before
+			changed := len(in.sites) > before || in.extra > beforeExtra
 			for _, im := range f.Imports {
 				switch im.Path.Value {
 				case `"sync"`:
@@ -749,7 +835,7 @@ func instrumentPackage(dense bool) (map[string]string, map[string]interface{}) {
 			if !changed {
 				continue
 			}
-			if len(in.sites) > before {
+			if len(in.sites) > before || in.extra > beforeExtra {
 				spec := &ast.ImportSpec{Name: ast.NewIdent("verifvsched"), Path: &ast.BasicLit{Kind: token.STRING, Value: `"verifshim/vsched"`}}
 				decl := &ast.GenDecl{Tok: token.IMPORT, Specs: []ast.Spec{spec}}
 				// imports must come first
